@@ -70,7 +70,7 @@ func (propC08) Gen(r *Rng, tier string) *World {
 			w.Cfg.Costs[names[r.Intn(len(names))]] = costPool[r.Intn(len(costPool))]
 		}
 	}
-	w.Cfg.Event = []string{"", "", "", "report"}[r.Intn(4)]
+	w.Cfg.Event = []string{"", "", "", "report", "debug", "both"}[r.Intn(6)]
 	ops := SpecMap(w.Cfg.Ops)
 	// sampled bindings for behavioural comparison
 	for i, n := 0, r.Range(1, 2); i < n; i++ {
@@ -110,6 +110,11 @@ func (propC08) Gen(r *Rng, tier string) *World {
 				}
 				s.Plan = &cp
 				script = append(script, s)
+			case x < 8:
+				// an unrelated compilation with ANOTHER config (other event
+				// options, other subset) in between: "in any order relative to
+				// other compilations"
+				script = append(script, Step{Op: "foreign", Expr: r.Intn(np), Mask: r.Intn(16), Arg: []string{"", "report", "debug", "both"}[r.Intn(4)]})
 			case x < 9:
 				script = append(script, Step{Op: "copyconf", Arg: []string{"copy", "extend"}[r.Intn(2)]})
 			default:
@@ -416,9 +421,23 @@ func (pr propC08) Run(w *World, st *Stats) *Violation {
 		return nil
 	}
 
+	foreign := func(s Step) {
+		fc := w.Cfg
+		fc.Event = s.Arg
+		fh := &OpHost{Specs: ops, Pure: true}
+		fcc := BuildConfig(&fc, fh, s.Mask, true)
+		func() {
+			defer func() { recover() }() // totality is C06's business
+			eval.Compile(fcc, w.Progs[s.Expr%len(w.Progs)].Src())
+		}()
+	}
 	doStep := func(ti, si int, s Step, yield func(kind, name string)) c08out {
 		if s.Op == "compile" {
 			return rn.compileStep(rn.cc, rn.host, s, yield, engine == "baton")
+		}
+		if s.Op == "foreign" {
+			foreign(s)
+			return c08out{}
 		}
 		if v := copyStep(s); v != nil && stepViol == nil {
 			stepViol = v
@@ -509,6 +528,8 @@ func (pr propC08) Run(w *World, st *Stats) *Violation {
 				var o c08out
 				if s.Op == "compile" {
 					o = rn.compileStep(rn.cc, rn.host, s, nil, true)
+				} else if s.Op == "foreign" {
+					foreign(s)
 				} else if s.Arg != "reverse" {
 					// copying the shared config while others compile from it
 					var cp *eval.Config
